@@ -49,12 +49,16 @@ fn action_position(e: &Expr) -> &'static str {
 }
 
 pub fn check(tree: &Expr, acc: &mut Acc) {
+    check_with(tree, None, acc)
+}
+
+pub fn check_with(tree: &Expr, threads: Option<u32>, acc: &mut Acc) {
     acc.states += 1;
     acc.transitions += 1;
     acc.validated += 1;
-    let wit = || json!({"kind": "tree", "tree": tree});
+    let wit = || json!({"kind": "tree", "tree": tree, "threads": threads});
     let real = conv::expr_to_real(tree).unwrap();
-    let (text, io) = match compile_render(&real, &subject::options(false, None), "/dev") {
+    let (text, io) = match compile_render(&real, &subject::options(false, threads), "/dev") {
         C::Ok(v) => v,
         C::Err(e) => {
             acc.violate(Violation::new("C09:compile-refused", format!("{}: {e}", tree.show()), wit()));
@@ -108,6 +112,100 @@ pub fn check(tree: &Expr, acc: &mut Acc) {
     }
 }
 
+/// n clauses "test -a action" joined by -o (the action count, the operator depth and the
+/// resource count all grow with n), and the same without any action.
+fn long_trees() -> Vec<Expr> {
+    let mut out = vec![];
+    for &n in &[8usize, 16, 31, 32, 33, 63, 64, 65, 66, 100, 127, 128, 129, 254, 255, 256, 257, 300, 511, 512, 513] {
+        let clause = |k: usize, a: Action| Expr::and(Expr::Test(Test::Name(if k % 2 == 0 { "x".into() } else { format!("n{k}") })), Expr::Action(a));
+        let fold = |items: Vec<Expr>| {
+            let mut it = items.into_iter();
+            let mut acc = it.next().unwrap();
+            for e in it {
+                acc = Expr::or(acc, e);
+            }
+            acc
+        };
+        out.push(fold((0..n).map(|k| clause(k, Action::Print)).collect()));
+        out.push(fold((0..n).map(|k| clause(k, Action::FPrint("f".into()))).collect()));
+        out.push(fold((0..n).map(|k| clause(k, Action::Quit)).collect()));
+        // action first, then n action-free terms (the action sits under n operators)
+        let mut deep = Expr::Action(Action::Print0);
+        for k in 0..n {
+            deep = Expr::or(deep, Expr::Test(Test::Name(format!("n{k}"))));
+        }
+        out.push(deep);
+        // no action at all
+        out.push(fold((0..n).map(|k| Expr::Test(Test::Name(if k == n - 1 { "x".into() } else { format!("n{k}") }))).collect()));
+    }
+    out
+}
+
+/// Call histories on one fresh thread: compiles that fail before / after an action was
+/// translated, followed by action-free and action-bearing expressions.
+fn histories(acc: &mut Acc) {
+    let t = |x| Expr::Test(x);
+    let a = |x| Expr::Action(x);
+    let ops: Vec<(&str, Expr)> = vec![
+        ("fails-after-action", Expr::and(a(Action::Print), t(Test::ANewer("f".into())))),
+        ("fails-before-action", Expr::and(t(Test::ANewer("f".into())), a(Action::Print))),
+        ("fails-in-format", a(Action::Printf(vec![Fmt::Field(Field::Name), Fmt::Field(Field::Depth)]))),
+        ("action-free", t(Test::Name("x".into()))),
+        ("with-action", Expr::and(t(Test::Name("x".into())), a(Action::Print))),
+        ("framed", Expr::and(t(Test::Name("x".into())), a(Action::Print0))),
+    ];
+    let n = ops.len();
+    for len in 2..=3u32 {
+        for mut idx in 0..n.pow(len) {
+            let mut h = vec![];
+            for _ in 0..len {
+                h.push(idx % n);
+                idx /= n;
+            }
+            // only histories that end in a compilable expression are judged at their end, but every
+            // compilable step is judged
+            let ops_ref = &ops;
+            let res = std::thread::scope(|s| {
+                s.spawn(move || {
+                    let mut a = Acc::new();
+                    for &i in &h {
+                        let tree = &ops_ref[i].1;
+                        if i < 3 {
+                            // must fail, cleanly
+                            let real = conv::expr_to_real(tree).unwrap();
+                            if let C::Ok(_) = compile_render(&real, &subject::options(false, None), "/dev") {
+                                a.violate(Violation::new("C09:history:unsupported-compiled", format!("history {h:?}"), json!({"kind": "history", "calls": h})));
+                            }
+                            a.states += 1;
+                        } else {
+                            let before = a.violations.len();
+                            check(tree, &mut a);
+                            if a.violations.len() > before {
+                                // rename: the failure depends on the calls made before
+                                let vs: Vec<Violation> = a.violations.values().map(|v| v.0.clone()).collect();
+                                a.violations.clear();
+                                for v in vs {
+                                    a.violate(Violation::new(
+                                        format!("{}:after-earlier-calls", v.sig),
+                                        format!("after the calls {:?} on the same thread: {}", h.iter().map(|k| ops_ref[*k].0).collect::<Vec<_>>(), v.what),
+                                        json!({"kind": "history", "calls": h}),
+                                    ));
+                                }
+                                break;
+                            }
+                        }
+                    }
+                    a
+                })
+                .join()
+                .unwrap()
+            });
+            let taken = std::mem::take(acc);
+            *acc = taken.merge(res);
+        }
+    }
+}
+
 pub fn run(ctx: &Ctx) -> i32 {
     let m = menu();
     let maxn = ctx.tier.pick(4, 5);
@@ -127,6 +225,22 @@ pub fn run(ctx: &Ctx) -> i32 {
             }
         }));
     }
+    let longs = long_trees();
+    acc = acc.merge(speclib::report::par_items(&longs, |t, acc| check(t, acc)));
+    // the thread-count option must not change what is printed
+    let small: Vec<Expr> = {
+        let shapes = trees::shapes(2);
+        (0..trees::count(2, m.len() as u64)).map(|i| trees::nth(&shapes, 2, &m, i)).chain(m.iter().cloned()).collect()
+    };
+    acc = acc.merge(speclib::report::par_items(&small, |t, acc| {
+        for th in [Some(1u32), Some(2), Some(64)] {
+            check_with(t, th, acc);
+            check_with(&Expr::and(t.clone(), Expr::Action(Action::Print0)), th, acc);
+        }
+    }));
+    let mut h = Acc::new();
+    histories(&mut h);
+    acc = acc.merge(h);
     finish(
         ctx,
         acc,
@@ -134,7 +248,7 @@ pub fn run(ctx: &Ctx) -> i32 {
             level: "model_checking",
             exhaustive: true,
             rule: "state = expression tree over {true, false, name test, print, quit, file print} and all operators; compiled by the real compile(), the policy executed by the runtime model on a matching and a non-matching file; expected output computed from find's rule stated directly (no action anywhere => ( expr ) -a -print; otherwise only the written actions); distinct = distinct (output, has-action) observations".into(),
-            bound: format!("every tree with <= {maxn} leaves over 6 leaves x 3 binary operators; for <= 3 leaves every negation of each leaf and of the root, above that the tree and its negation"),
+            bound: format!("every tree with <= {maxn} leaves over 6 leaves x 3 binary operators; for <= 3 leaves every negation of each leaf and of the root, above that the tree and its negation; chains of 8..513 clauses (around every power of two) with an action in every clause / in the first term only / nowhere; all 1- and 2-leaf trees under -threads 1, 2, 64; every call history of length 2..3 on a fresh thread over three failing compiles (before / after an action, in a format) and three compilable expressions"),
             assumptions: vec!["runtime model of DESIGN.md §3 (print-relative-path writes the path and a newline to standard output)".into()],
             extra: serde_json::Map::new(),
         },
@@ -143,8 +257,10 @@ pub fn run(ctx: &Ctx) -> i32 {
 
 pub fn replay(w: &Value) -> Vec<Violation> {
     let mut acc = Acc::new();
-    if let Ok(t) = serde_json::from_value::<Expr>(w["tree"].clone()) {
-        check(&t, &mut acc);
+    if w["kind"] == "history" {
+        histories(&mut acc);
+    } else if let Ok(t) = serde_json::from_value::<Expr>(w["tree"].clone()) {
+        check_with(&t, w["threads"].as_u64().map(|t| t as u32), &mut acc);
     }
     acc.violations.into_values().map(|(v, _)| v).collect()
 }
